@@ -33,6 +33,22 @@ def edge_has_fact(edge, pred):
     return any(pred(atom, pol) for atom, pol in facts_of(edge.test, edge.polarity))
 
 
+def edge_implies_any(edge, preds):
+    """Does crossing this branch edge imply that at least one of the facts `preds` holds?  Handles the disjunctive cases:
+    the false edge of `a and b` implies (not a) or (not b); the true edge of `a or b` implies a or b."""
+    if edge.test is None:
+        return False
+
+    def holds(atom, pol):
+        if any(pr(atom, pol) for pr in preds):
+            return True
+        if isinstance(atom, ast.BoolOp):
+            if (isinstance(atom.op, ast.And) and pol is False) or (isinstance(atom.op, ast.Or) and pol is True):
+                return all(any(holds(a2, p2) for a2, p2 in facts_of(v, pol)) for v in atom.values)
+        return False
+    return any(holds(atom, pol) for atom, pol in facts_of(edge.test, edge.polarity))
+
+
 def run(ctx, R, tier):
     p = ctx.p
     es = ctx.escape
